@@ -475,6 +475,58 @@ def check(ctx):
                       'decode_length also rejects encodings when %s: BER allows any number of length octets and non-minimal lengths (only DER forbids them)' % sorted(set(extra)), stmt='extra length test')
 
 
+    # ---- R7: the binary form of REAL (X.690 8.5.7): sign, base 2 / 8 / 16, scaling factor 0..3, exponent of one, two, three or a counted number of octets, mantissa N:
+    #      value = S * N * 2**F * B**E.  A BER decoder accepts every combination (DER and this tool's encoder use base 2, F = 0, the shortest exponent).  decode_real is
+    #      evaluated (sa/evalexpr.py) on encodings of small values in every form.
+    ctx.rule('C04.R7', 'REAL, binary form: every base / scaling factor / exponent form of X.690 8.5.7 is decoded to S * N * 2**F * B**E (bounded evaluation of decode_real)')
+    from .. import evalexpr as _ev7
+    dr = model.mod(BER).functions.get('decode_real')
+    if dr is None:
+        ctx.instance('C04.R7', 'ber.decode_real', 'undecided', 'function not found', nontrivial=False, file=BER)
+    else:
+        dp7 = flow.param_names(dr)[0]
+        cases7 = []
+        for sign in (0, 1):
+            for bbits, base in ((0, 2), (1, 8), (2, 16)):
+                for fac in (0, 1, 3):
+                    for eform in (0, 1, 2, 3):
+                        for exp in (0, 1, -1, 3):
+                            for mant in (1, 5, 0x0a):
+                                control = 0x80 | (sign << 6) | (bbits << 4) | (fac << 2) | eform
+                                if eform < 3:
+                                    eo = exp.to_bytes(eform + 1, 'big', signed=True)
+                                else:
+                                    eo = b'\x01' + exp.to_bytes(1, 'big', signed=True)
+                                data = bytes([control]) + eo + bytes([mant])
+                                want = (-1 if sign else 1) * mant * (2 ** fac) * (float(base) ** exp)
+                                cases7.append((data, want, (base, fac, eform)))
+        n_ok = n_und = 0
+        bad7 = {}
+        und7 = ''
+        for data, want, form in cases7:
+            try:
+                got, _e = _ev7.run_function(dr, {dp7: bytearray(data)})
+            except _ev7.Raised as e_:
+                bad7.setdefault(form, (data, 'raises %s' % e_.name, want))
+                continue
+            except (_ev7.Unsupported, TypeError, KeyError) as e_:
+                n_und += 1
+                und7 = und7 or str(e_)[:80]
+                continue
+            if isinstance(got, (int, float)) and float(got) == want:
+                n_ok += 1
+            else:
+                bad7.setdefault(form, (data, 'gives %r' % (got,), want))
+        ctx.instance('C04.R7', 'ber.decode_real on %d binary REAL encodings (%d forms; %d undecided)' % (n_ok + sum(1 for _ in bad7), 36, n_und),
+                     'VIOLATION' if bad7 else ('ok' if n_ok > n_und else 'undecided'), und7, nontrivial=n_ok > 0, node=dr, file=BER)
+        if bad7:
+            forms = sorted(bad7)
+            data, what, want = bad7[forms[0]]
+            ctx.violation('C04.R7', BER, dr, Model.qual(dr),
+                          'decode_real(%s) %s; X.690 8.5.7 gives %r (base %d, scaling factor %d, exponent form %d).  %d of the 36 (base, scaling factor, exponent form) combinations of the '
+                          'binary form are not decoded: a REAL sent by an encoder that uses base 8 / 16, a scaling factor or a three-octet / counted exponent is rejected'
+                          % (data.hex(), what, want, forms[0][0], forms[0][1], forms[0][2], len(forms)), stmt='binary REAL forms')
+
 MUTANTS = [
     dict(name='end-of-data re-evaluated at the head of every member iteration', file=BER,
          old="""                if out_of_data:
